@@ -15,6 +15,9 @@ import (
 	"verif/ev"
 	"verif/explore"
 	"verif/serverx"
+	"verif/srvx"
+
+	"github.com/aldas/go-modbus-client/verifshim/vsched"
 )
 
 const prop = "C15"
@@ -255,6 +258,9 @@ func run(tier string, shard, nsh int, res *ev.Result) {
 	var mu sync.Mutex
 	tot := &local{states: map[string]struct{}{}}
 	ev.Par(len(jobs), runtime.NumCPU(), func(i int) {
+		if i%nsh != shard {
+			return
+		}
 		j := jobs[i]
 		lc := &local{states: map[string]struct{}{}}
 		runStream(mkStream(byName(cat, j.names)), Case{Frames: j.names, Pipelined: j.pipe, Cuts: j.cuts}, res, lc)
@@ -272,10 +278,16 @@ func run(tier string, shard, nsh int, res *ev.Result) {
 	res.Add("executions", tot.execs)
 	res.Add("choice_points", tot.points)
 	res.Add("receive_read_calls", tot.reads)
-	res.Add("streams", int64(len(jobs)))
+	if shard == 0 {
+		res.Add("streams", int64(len(jobs)))
+	}
+	level2(tier, shard, nsh, res)
 	res.DistinctAdd("nontrivial", tot.nontrivial)
 	for k := range tot.states {
 		res.Seen("states", []byte(k))
+	}
+	if shard != 0 {
+		return
 	}
 	res.Axis("frame catalogue", "10 valid functions + 3 boundary-size valid + unsupported fc + out-of-range quantity + inconsistent byte count", int64(len(cat)))
 	res.Axis("stream", "every single frame, every ordered pair, triples over a reduced catalogue; lock-step and pipelined", int64(len(jobs)))
@@ -285,6 +297,20 @@ func run(tier string, shard, nsh int, res *ev.Result) {
 }
 
 func replay(check string, raw json.RawMessage, res *ev.Result) {
+	if check == "server-loop" {
+		var c Case2
+		json.Unmarshal(raw, &c)
+		explore.Replay(func(x *explore.Ctx) {
+			r := srvx.Run(c.Scenario, vsched.Config{Choose: x.Choose, Budget: c.Budget, TimeFirst: true, Trace: true, MaxSteps: 20000})
+			for _, st := range r.Out.Trace {
+				fmt.Printf("  thread %d: %s\n", st.Thread, st.Label)
+			}
+			for _, v := range r.V {
+				res.Violate(ev.Violation{Check: check, Kind: v.Kind, Attrs: v.Attrs, Msg: v.Msg, Case: c})
+			}
+		}, c.Choices)
+		return
+	}
 	var c Case
 	json.Unmarshal(raw, &c)
 	cat := serverx.Catalogue(0x4000)
@@ -303,9 +329,11 @@ func main() {
 			"after every read the replies so far must equal the whole-frame replies of exactly the frames completed so far; handler called once per valid frame, in order",
 		Assumptions: []string{"reference replies = the same frames given whole to fresh assemblers (device state carries over between frames)", "streams longer than 3 frames / more than 3 cuts are not explored"},
 		Run:         run, Replay: replay,
+		Shards:     func(tier string) int { return 16 },
+		ShardProcs: 1,
 		Finish: func(tier string, res *ev.Result, cov map[string]any) {
 			cov["states"] = res.Distinct["states"]
-			cov["transitions"] = res.Counters["receive_read_calls"]
+			cov["transitions"] = res.Counters["receive_read_calls"] + res.Counters["l2_steps"]
 			cov["traces_validated_against_impl"] = res.Counters["executions"]
 			cov["state_definition"] = "(frames in stream, frames completed, size of the chunk just delivered) tuples observed"
 		},
